@@ -329,6 +329,9 @@ def gen_program(rng, size=3):
     if fixed and rng.random() < 0.35:
         c.features.add("procedure-reassigned")
         f, ar = rng.choice(fixed)
+        unary = [(g, a) for (g, a) in fixed if a == 1]
+        if unary and rng.random() < 0.6:     # one operand = the arity of a rest-only lambda: the case an unchecked call gets wrong
+            f, ar = rng.choice(unary)
         caller = c.fresh("k")
         args = " ".join(str(rng.randint(1, 9)) for _ in range(ar))
         forms.append("(define (%s) (%s %s))" % (caller, f, args))
@@ -348,4 +351,20 @@ def gen_program(rng, size=3):
             forms.append("(set! %s (lambda (%s) (list 'fewer)))" % (f, " ".join("p%d" % i for i in range(ar - 1))))
         forms.append("(with-handler (lambda (e) 'arity-error) (%s %s))" % (f, args))
         forms.append("(with-handler (lambda (e) 'arity-error) (%s))" % caller)
+        if shape in ("rest", "all", "wrapped"):
+            # these accept any operand count: the same calls outside a handler (other call instructions are used for
+            # a call that is the whole top-level form, an operand, or the body of the handler's thunk)
+            forms.append("(%s)" % caller)
+            forms.append("(%s %s)" % (f, args))
+            forms.append("(list (%s %s) (%s))" % (f, args, caller))
+    # a procedure that refers to a LATER top-level definition and is called before that definition has run: an error
+    # value (free identifier) that a handler catches; after the definition the same call works
+    if rng.random() < 0.2:
+        c.features.add("called-before-later-define")
+        k, later = c.fresh("k"), c.fresh("later")
+        n = rng.randint(1, 9)
+        forms.append("(define (%s) (%s %d))" % (k, later, n))
+        forms.append("(with-handler (lambda (e) 'not-yet-defined) (%s))" % k)
+        forms.append("(define (%s x) (list 'later x))" % later)
+        forms.append("(%s)" % k)
     return "\n".join(forms), set(c.features)
